@@ -72,14 +72,19 @@ PROP = dict(
          "integers; plus a REUSE stream (about a third of the cases): one Greedy / KarmarkarKarp VALUE serves a sequence of "
          "2-4 calls (fewer weights than parts first, then more; other lengths; the previous output, resized with garbage, "
          "as the dirty buffer; i64 or f64 weights), each call being a case judged by the checker and compared with the model "
-         "run on that call's input with the ORIGINAL part count; distinct = distinct (algorithm, weights, part count, "
+         "run on that call's input with the ORIGINAL part count; plus a GENUINE-f64 stream (1 unit in 5, Greedy only): "
+         "tenths, thirds, mixed magnitudes 1e-12..1e12, random mantissas, ties between rounded sums (0.1+0.2 vs 0.3), one "
+         "dominant 1e15, subnormals, and a negative / -0.0 family (outside the contract), passed as bit patterns and "
+         "compared bit-for-bit with the binary64 (SpecFloat) instance of the generic model, judged by replaying LPT in "
+         "rounded arithmetic; distinct = distinct (algorithm, weights, part count, "
          "partition length / buffer); non-trivial = matching "
          "lengths, at least 2 parts, at least 3 weights, not all weights zero",
     class_names={0: "Ok (exact partition compared)", 1: "InputLenMismatch", 2: "other error", 3: "panic", 4: "hang",
                  5: "Ok (k-way KK: loads compared; partition also identical)",
                  6: "Ok (k-way KK: loads compared; partition differs)",
                  7: "Ok (k-way KK, more than 20 parts: checker only; partition identical)",
-                 8: "Ok (k-way KK, more than 20 parts: checker only; partition differs)"},
+                 8: "Ok (k-way KK, more than 20 parts: checker only; partition differs)",
+                 9: "Ok (Greedy, genuine f64 weights: compared bit-for-bit, LPT replayed in rounded arithmetic)"},
     trusted_base=[
         "axioms: none (every theorem of Properties/C12.v is closed under the global context)",
         "modelled, not verified: i64 overflow of part loads / row sums (contract: sums do not overflow); allocation of "
@@ -93,8 +98,12 @@ PROP = dict(
         "identical); with more than 20 parts ties do come out differently, only the certified checker judges (classes 7/8)",
     ],
     assumptions=[
-        "weights are non-negative integers (i64; f64 holding integers below 2^53 for Greedy) whose sums do not overflow; part count >= 1",
-        "f64 `+` and `<` are exact on integers below 2^53 (Greedy with f64 weights goes through the integer model)",
+        "weights are non-negative (i64, or f64: finite, not NaN, not -0.0) and their sums do not overflow; part count >= 1",
+        "f64: the Greedy property is read in ROUNDED arithmetic -- the loads are those accumulated by the code's own sequence "
+        "of additions (weights in non-increasing order); loads recomputed in another order or exactly may differ in the last bits",
+        "f64: Coq's SpecFloat SFadd / SFltb / SFeqb at (53,1024) are the CPU's binary64 +, <, == (validated bit-for-bit on every "
+        "genuine-f64 case); premise of C12_greedy_is_lpt_f64 not proved here: the rounded sum of two non-negative numbers is a "
+        "non-negative number, never NaN, never -0.0 (add_closed F64arith okF)",
     ],
 )
 
@@ -108,7 +117,11 @@ MANIFEST = dict(
          "max load - min load <= largest weight (k >= 2) and, for k = 2, |load0 - load1| = the differencing residue "
          "(C12_kk2_residue: signed, any integer weights). Models are compared with the implementation on generated inputs "
          "(exact partitions; sorted loads for k-way KK) and checkers proved equivalent to the property judge every output; "
-         "the literals the models hard-code are re-read from the source on every run (C12_source_literals).",
+         "the literals the models hard-code are re-read from the source on every run (C12_source_literals). Greedy is also "
+         "modelled over an abstract weight arithmetic (zero, +, <, ==; order laws only, no associativity): "
+         "C12_greedy_is_lpt_generic proves the LPT statement for the code's own sequence of rounded additions, instantiated "
+         "for Z and for binary64 (order laws proved for SpecFloat; closure of + as a premise); genuine f64 inputs are "
+         "compared bit-for-bit with the SpecFloat instance.",
     design_ref="DESIGN.md §7 C12",
     note="Trusted: Coq kernel; model<->code tie = translator (12 literals) + differential runs (5k/30k cases, i64 and f64); "
          "BinaryHeap/sort/min_by library contracts as listed; no axioms.",
